@@ -138,7 +138,9 @@ func (en *Engine) external(st *State, fr *Frame, x *ssa.Call, name string, calle
 	rts := resultTypes(x.Common())
 	site := ""
 	det := ct != nil && ct.Det
-	if !det {
+	if ct != nil && ct.TreeObserver {
+		site = fmt.Sprintf("tree#%d", st.treeEpoch)
+	} else if !det {
 		site = fr.ctx + "/" + siteOf(x)
 		st.visits["call:"+site]++
 		if n := st.visits["call:"+site]; n > 1 {
@@ -151,6 +153,17 @@ func (en *Engine) external(st *State, fr *Frame, x *ssa.Call, name string, calle
 	}
 	ev := st.addEvent(&Event{Kind: EvCall, Instr: x, Callee: name, CalleeFn: callee, Args: args, Res: res})
 	_ = ev
+	switch {
+	case ct != nil && ct.TreeMutator:
+		st.treeEpoch++
+	case ct != nil:
+	case callee != nil && en.P.inModule(callee):
+		if !moduleTreePure(en.P, callee, map[*ssa.Function]bool{}) {
+			st.treeEpoch++
+		}
+	default:
+		st.treeEpoch++
+	}
 	switch {
 	case ct != nil:
 		for _, i := range ct.Writes {
@@ -424,4 +437,50 @@ func localIface(v ssa.Value, localBase func(ssa.Value) bool) bool {
 		return localBase(mi.X)
 	}
 	return localBase(v)
+}
+
+var treePureCache = map[any]bool{}
+
+// moduleTreePure: fn (transitively, within the module) calls no etree mutator and no unmodelled external.
+func moduleTreePure(p *Prog, fn *ssa.Function, seen map[*ssa.Function]bool) bool {
+	if v, ok := treePureCache[fn]; ok {
+		return v
+	}
+	if seen[fn] {
+		return true
+	}
+	seen[fn] = true
+	pure := true
+	for _, b := range fn.Blocks {
+		for _, in := range b.Instrs {
+			if mc, ok := in.(*ssa.MakeClosure); ok {
+				if !moduleTreePure(p, mc.Fn.(*ssa.Function), seen) {
+					pure = false
+				}
+			}
+			ci, ok := in.(ssa.CallInstruction)
+			if !ok {
+				continue
+			}
+			name, callee := calleeName(ci.Common())
+			if name == "" {
+				continue // call through a local function value: closures are scanned above
+			}
+			if strings.HasPrefix(name, "builtin:") {
+				continue
+			}
+			if callee != nil && p.inModule(callee) && callee.Blocks != nil {
+				if !moduleTreePure(p, callee, seen) {
+					pure = false
+				}
+				continue
+			}
+			ct := lookupContract(name)
+			if ct == nil || ct.TreeMutator || ct.Iterate {
+				pure = false
+			}
+		}
+	}
+	treePureCache[fn] = pure
+	return pure
 }
